@@ -114,7 +114,7 @@ class Gen(object):
         if k < 0.98:
             a, b = r.randint(1, 4), r.randint(1, 4)
             return "%d/%d" % (a * b, b), a
-        if "octal" in self.features:
+        if k < 0.986 and "octal" in self.features:
             n = r.randint(1, 20)
             return "0%o" % n, n
         n = r.randint(1, 9)
@@ -168,7 +168,7 @@ class Gen(object):
         if k < 0.90 and self.tags:
             kind, tag = r.choice(self.tags)
             return ["ref", kind, tag]
-        if k < 0.93 and self.nested_tags and "nested-tag-ref" in self.features:
+        if k < 0.91 and self.nested_tags and "nested-tag-ref" in self.features:
             kind, tag = r.choice(self.nested_tags)
             return ["ref", kind, tag]
         if k < 0.97 and self.typedefs:
@@ -569,6 +569,17 @@ class Val(object):
         self.rel = rel      # offset from the object reached by the last pointer hop
         self.arr = arr      # an array was indexed / decayed since the last pointer hop
         self.nested = False  # pointer rvalue loaded from a pointer declared with a tag defined inside another declaration
+        self.arr_start = None   # rel of the innermost array member gone through since the last hop
+        self.arr_lead = False   # ... and that array is the first thing (offset 0) in its struct/union
+
+    def carry(self, other):
+        self.arr_start, self.arr_lead = other.arr_start, other.arr_lead
+        return self
+
+    def leading_array_element(self):
+        """the access designates the first bytes of element 0 of an array member placed at offset 0 of its
+        struct/union"""
+        return self.arr and self.arr_lead and self.rel == self.arr_start
 
 
 def add(loc, off):
@@ -584,7 +595,7 @@ def to_rv(lay, v):
         out.nested = is_nested_ref(lay, R[1])
         return out
     if R[0] == "arr":
-        return Val("rv", v.loc, v.node["elem"], v.rel, True)
+        return Val("rv", v.loc, v.node["elem"], v.rel, True).carry(v)
     raise EvalError("not a pointer/array: %r" % (R[0],))
 
 
@@ -627,14 +638,14 @@ def eval_ast(lay, ast, rootnode, varname="ptr", trace=None):
         if v.node["T"][0] == "func":
             raise SkipAccess("function designator")
         if v.node["T"][0] == "void":
-            raise EvalError("deref of void pointer")
-        return Val("lv", v.loc, v.node, v.rel, v.arr)
+            raise SkipAccess("deref of void pointer")
+        return Val("lv", v.loc, v.node, v.rel, v.arr).carry(v)
     if isinstance(ast, c_ast.UnaryOp) and ast.op == "&":
         v = eval_ast(lay, ast.expr, rootnode, varname, trace)
         if v.kind != "lv":
             raise EvalError("& of rvalue")
         trace.append("addr@" + _okind(lay, v))
-        return Val("rv", v.loc, v.node, v.rel, v.arr)
+        return Val("rv", v.loc, v.node, v.rel, v.arr).carry(v)
     if isinstance(ast, c_ast.ArrayRef):
         v0 = eval_ast(lay, ast.name, rootnode, varname, trace)
         trace.append("index@" + _okind(lay, v0))
@@ -644,7 +655,7 @@ def eval_ast(lay, ast, rootnode, varname="ptr", trace=None):
         k = int(ast.subscript.value, 0)
         if v.node["size"] is None:
             raise EvalError("index of void/function pointer")
-        return Val("lv", add(v.loc, k * v.node["size"]), v.node, v.rel + k * v.node["size"], v.arr)
+        return Val("lv", add(v.loc, k * v.node["size"]), v.node, v.rel + k * v.node["size"], v.arr).carry(v)
     if isinstance(ast, c_ast.StructRef):
         v0 = eval_ast(lay, ast.name, rootnode, varname, trace)
         if ast.type == ".":
@@ -663,7 +674,11 @@ def eval_ast(lay, ast, rootnode, varname="ptr", trace=None):
         if ast.field.name.startswith("__ANONYMOUS__") or ast.field.name.startswith("__PAD__"):
             raise SkipAccess("internal member name")
         off, sub = field_of(v.node, ast.field.name)
-        return Val("lv", add(v.loc, off), sub, v.rel + off, v.arr)
+        out = Val("lv", add(v.loc, off), sub, v.rel + off, v.arr).carry(v)
+        if sub["T"][0] == "arr":
+            out.arr_start = v.rel + off
+            out.arr_lead = (off == 0)
+        return out
     raise EvalError("unsupported syntax %s" % type(ast).__name__)
 
 
@@ -764,7 +779,7 @@ def gen_path(lay, rootnode, rnd, max_steps=6):
             if pv.node["size"] is None or P[0] == "void":
                 break
             if P[0] == "agg":
-                opts += [("arrow", 6), ("deref", 1), ("index", 1)]
+                opts += [("arrow", 14), ("deref", 1), ("index", 1)]
             else:
                 opts += [("deref", 2), ("index", 3)]
             if v.kind == "lv" and R[0] == "arr":
